@@ -203,6 +203,13 @@ func scenarioC02(r *Run) {
 				}
 				hb := message.NewHeartbeatRequest(p.NextSeq(), ie.NewRecoveryTimeStamp(p.TS), nil)
 				setSeq(hb, seqFor(p))
+				if len(held) > 0 && r.Ch.Choose(3, "same-seq-as-pending") == 1 {
+					// the peer's own request happens to carry the sequence number of the
+					// agent's request that is still waiting for its answer (the two ends
+					// number independently): a request all the same, to be answered
+					setSeq(hb, held[len(held)-1])
+					r.Probe("peer-request-numbered-like-a-pending-agent-request")
+				}
 				send(p, hb, "HeartbeatRequest", 1)
 			}
 			p.HBFilter = nil
@@ -395,6 +402,9 @@ func scenarioC02(r *Run) {
 			if c == ie.CauseRequestAccepted {
 				r.Accepted++
 				delete(p.Sessions, s.CPSEID)
+				// (the session is gone: its UP F-SEID is now that of an unknown session)
+				stale[p] = append(stale[p], s.UPSEID)
+				sort.Slice(stale[p], func(i, j int) bool { return stale[p][i] < stale[p][j] })
 				if resp.SEID() != s.CPSEID {
 					r.Violate("C02", "wrong-header-seid:del", "accepted deletion: header SEID %d, the control plane's SEID for the session is %d", resp.SEID(), s.CPSEID)
 				}
